@@ -222,8 +222,8 @@ class Obligations:
         lhs, rhs, scaled, unit = margin
         M = z3.Real("M!scale")
         d = zx.Z(zx.to_real(lhs)) - zx.Z(zx.to_real(rhs))
-        # the largest relative violation first; 1e-6 is still ten times the relative tolerance of the replays
-        for frac in (1000, 1000000):
+        # the largest relative violation first; the last step is still ten times the relative tolerance of the replays
+        for frac in (10 ** 3, 10 ** 6, 10 ** 9, 10 ** 12):
             s = self._solver(assumptions, min(budget, 20000))
             s.add(neg, M > 0)
             for x in scaled:
